@@ -14,3 +14,5 @@ pub mod gen_closure;
 pub mod shrink;
 pub mod e_prog;
 pub mod pp;
+pub mod e_resolve;
+pub mod e_total;
